@@ -2,7 +2,7 @@
 from ..rules_vector import Checker
 from ..corpus import FilterRec
 from ..rules_bounds import rule_B1, rule_B3, rule_B3u
-from ..rules_layout import rule_P2, rule_P1e
+from ..rules_layout import rule_P2, rule_P1e, rule_stride_inv
 from ..rules_own import discover_owners, null_writes
 from ._common import run_vector, vector_configs
 from .. import config
@@ -16,6 +16,7 @@ def rule(tu, rec):
     ck2 = Checker(tu, FilterRec(rec, ("P2", "P1e-fit")), "C02")
     rule_P2(ck2, "P2")
     rule_P1e(ck2, "P1e")
+    rule_stride_inv(ck, "INV-S")
     owners = discover_owners(tu)
     null_writes(ck, owners, "NULLW", fns=("w_copy_ctor", "w_move_ctor", "w_copy_assign", "w_move_assign", "w_swap", "w_dtor", "w_clear", "w_reserve"))
 
@@ -32,7 +33,9 @@ def run(tier, seed, only=None):
         "footprint or the constructor's own byte formula for the new capacity/budget/fixed sizes.  B3: every bulk copy into an "
         "operand's existing block stays inside memory_consumption() given the branch conditions that select the reuse of the "
         "block and the invariant used extent <= memory_consumption().  P1e-fit: the element stride of all-fixed vectors is at "
-        "least the extent of one element for all fixed sizes.  No bulk write through a null block.  The global statement "
+        "least the extent of one element for all fixed sizes; INV-S: that stride is the one of *every* state - each constructor "
+        "(default construction included) and each mutator leaves stride == the constructor's stride formula of the state's "
+        "fixed sizes.  No bulk write through a null block.  The global statement "
         "'N elements with payload <= B always fit' for varying-size lists is a summation over elements and is argued in "
         "DESIGN, not mechanised.",
         cfgs=cfgs, min_cfg=38, min_ob=1200)
